@@ -101,7 +101,8 @@ func New(id string) *Check {
 			c.Deadline = time.Unix(u, 0)
 		}
 	}
-	if b, err := os.ReadFile(filepath.Join(Root, "known_findings.json")); err == nil {
+	// VERIF_NO_KNOWN=1 (triage only): report every violation, also the recorded ones
+	if b, err := os.ReadFile(filepath.Join(Root, "known_findings.json")); err == nil && os.Getenv("VERIF_NO_KNOWN") == "" {
 		var ff findingsFile
 		if err := json.Unmarshal(b, &ff); err != nil {
 			fmt.Println("HARNESS-ERROR: known_findings.json:", err)
@@ -217,6 +218,12 @@ func (c *Check) Violation(key string, detail any) {
 	for _, f := range c.known {
 		if f.Key == key || (f.Prefix && strings.HasPrefix(key, f.Key)) || (f.Contains && strings.Contains(key, f.Key)) {
 			c.knownHit[f.Key]++
+			if p := os.Getenv("VERIF_LOG_KNOWN"); p != "" {
+				if fh, err := os.OpenFile(p, os.O_APPEND|os.O_CREATE|os.O_WRONLY, 0o644); err == nil {
+					fmt.Fprintf(fh, "%s\t%s\t%s\n", c.ID, f.Key, key)
+					fh.Close()
+				}
+			}
 			return
 		}
 	}
